@@ -300,6 +300,47 @@ def run(ctx):
             ctx.prop_fail("stringify: serialised text does not map back to the value (undefined/functions omitted, non-finite as null)",
                           {"program": hl, "impl": g[:300], "expected_tree": json.dumps(want)[:300]})
         distinct.add(g)
+    # shared (not cyclic) sub-values: the same object at several positions of one value is legal and is written out each time
+    shared_lines, shared_vals = [], []
+    for _ in range(150 if ctx.tier == "quick" else 2500):
+        comps = [rng.choice([("a", []), ("o", []), ("a", [("n", "1")]), ("o", [("k", ("s", "v"))]), rand_js(rng, 1), rand_js(rng, 2)]) for _ in range(rng.randint(1, 3))]
+        comps = [c if c[0] in ("a", "o") else ("a", [c]) for c in comps]
+
+        def with_refs(depth):
+            k = rng.random()
+            if depth <= 0 or k < 0.5:
+                return ("r", rng.randrange(len(comps)))
+            if k < 0.75:
+                return ("a", [with_refs(depth - 1) for _ in range(rng.randint(1, 4))])
+            return ("o", [("p%d" % i, with_refs(depth - 1)) for i in range(rng.randint(1, 4))])
+
+        def expand(v):
+            if v[0] == "r":
+                return comps[v[1]]
+            if v[0] == "a":
+                return ("a", [expand(x) for x in v[1]])
+            return ("o", [(k, expand(x)) for k, x in v[1]])
+
+        def src(v):
+            if v[0] == "r":
+                return "s%d" % v[1]
+            if v[0] == "a":
+                return "[" + ", ".join(src(x) for x in v[1]) + "]"
+            return "({" + ", ".join(json.dumps(k) + ": " + src(x) for k, x in v[1]) + "})"
+        top = ("a", [with_refs(2), with_refs(2)]) if rng.random() < 0.5 else ("o", [("x", with_refs(2)), ("y", with_refs(2)), ("z", ("r", 0)), ("w", ("r", 0))])
+        decl = " ".join("const s%d: any = %s;" % (i, js_src(c)) for i, c in enumerate(comps))
+        shared_lines.append("Y %s const v: any = %s; JSON.stringify(v) + \"\";" % (decl, src(top)))
+        shared_vals.append(expand(top))
+    gots = common.harness(["json"], shared_lines)
+    for v, hl, g in zip(shared_vals, shared_lines, gots):
+        ctx.cov["evaluations"] += 1
+        kinds["Y"] += 1
+        want = js_expected(v, top=True)
+        if g.startswith("ERR"):
+            ctx.prop_fail("shared: a value with a sub-object at several positions (no cycle) is refused (%s)" % g[:40], {"program": hl, "impl": g[:200]})
+        elif parse(g) != norm(want):
+            ctx.prop_fail("stringify: serialised text does not map back to the value (shared sub-values)", {"program": hl, "impl": g[:300], "expected_tree": json.dumps(want)[:300]})
+        distinct.add(g)
     for hl, g in zip(cyc, goty[len(ys):]):
         ctx.cov["evaluations"] += 1
         if g != "ERR TypeError":
